@@ -161,8 +161,9 @@ class Runner(object):
             f = im.files.files.get(n)
             m = getattr(f, 'mode', None)
             files.append('closed' if f is None else (m.decode() if isinstance(m, bytes) else str(m)))
-        name = im.display.mode.name
-        screen = 0 if im.display.mode.is_text_mode else {'320x200x4': 1, '640x200x2': 2}.get(name, 9)
+        # SCREEN class: text, 320-pixel-wide (SCREEN 1), 640-pixel-wide (SCREEN 2) graphics; mode names differ between adapters
+        md = im.display.mode
+        screen = 0 if md.is_text_mode else {320: 1, 640: 2}.get(md.pixel_width, 9)
         gv = im.graphics.graph_view
         seg = im.all_memory.segment
         segc = {im.memory.data_segment: 'data', 0: 'zero', 0xb800: 'video', 0xf000: 'rom'}.get(seg, 'other')
@@ -193,7 +194,8 @@ class Runner(object):
 
     def run_transition(self, case):
         mode, prog, trap, prot, files, screen, view, window, ev, seg = st = case['st']
-        s = self.fresh(hide_protected=True) if prot else self.fresh()
+        # protection is only honoured with hide_protected=True (the command line's default is off); the prot dimension needs it
+        s = self.fresh(hide_protected=True)
         text = ('PRINT ' + case['text'] + ';') if case['fn'] else case['text']
         block = 'block' in case['flags']
         setup = self.setup_statements(st)
